@@ -485,10 +485,12 @@ def decide(pid, pcfg, cfg, tier, seed, workdir, evidence):
         diff_res = finder.search(pid, timeout=600)
 
     # ---- evidence
-    n_clause = len(my_clauses)
+    # hard obligations of the property and the dependency clauses its lemmas rest on: all of them are discharged on a tree
+    # that answers plain OK; a failed dependency clause alone never decides (see `deps` below)
+    n_clause = len(my_clauses) + len(dep_clauses)
     n_fn = len(my_fns)
     n_lem = len(my_lemmas)
-    failed_clause_ids = set(c for f in mine for c in f["clauses"])
+    failed_clause_ids = set(c for f in mine for c in f["clauses"]) | set(c for f in deps for c in f["clauses"])
     failed_fn_builtin = set(f["fn"] for f in mine if not f["clauses"])
     obligations = n_clause + n_fn + n_lem
     discharged = obligations - len(failed_clause_ids) - len(failed_fn_builtin)
@@ -497,8 +499,8 @@ def decide(pid, pcfg, cfg, tier, seed, workdir, evidence):
     cov.update({
         "obligations": obligations,
         "discharged": discharged,
-        "obligation_counting_rule": "tagged contract clauses (requires/ensures/invariants) + functions whose built-in "
-                                    "obligations (overflow, index, slice, callee preconditions, termination) count for this property + lemmas",
+        "obligation_counting_rule": "contract clauses tagged with this property - hard obligations and dependency clauses (~) alike - "
+                                    "+ functions whose built-in obligations (overflow, index, slice, callee preconditions, termination) count for this property + lemmas",
         "checker_cmd": "extract/extract.py --repo /repo --contracts contracts --out build/<run>/ppp_verus.rs --vacuity && " + res["cmd"],
         "back_end": f"Verus {verus_version()} / Z3 (bundled)",
         "verus_verified_total": vr.get("verified"),
@@ -511,8 +513,8 @@ def decide(pid, pcfg, cfg, tier, seed, workdir, evidence):
              "smt_ms": next((round(v["time_ms"], 1) for k, v in fres.items() if fn_matches(k, f)), None)}
             for f in my_fns],
         "clauses": [{"id": c["id"], "kind": c["kind"], "text": c["text"]} for c in my_clauses],
-        "stronger_clauses": [{"id": c["id"], "text": c["text"], "note": "verified on this tree; stronger than the property (not counted as its obligation): "
-                              "if only such a clause fails the property is decided by the bounded property-level sweep"} for c in dep_clauses],
+        "stronger_clauses": [{"id": c["id"], "text": c["text"], "note": "dependency clause: the property's lemmas rest on it, but it says more than the property does; "
+                              "if only such clauses fail the property is decided by the bounded property-level sweep"} for c in dep_clauses],
         "lemmas": sorted(my_lemmas),
         "samples": [c["text"] for c in my_clauses[:6]] + [f"lemma {n}" for n in sorted(my_lemmas)[:6]],
         "vacuity": vac,
